@@ -23,7 +23,8 @@ type Event struct {
 
 type State struct {
 	root    map[int]*Object // frozen globals (shared)
-	heap    map[int]*Object
+	base    map[int]*Object // older local objects (immutable map, shared between forks and snapshots)
+	heap    map[int]*Object // recent local objects / versions (small delta, private)
 	threads []*Thread
 	cur     int
 	pc      []*Term
@@ -39,6 +40,8 @@ type State struct {
 	notes   []string
 	locks   map[lockID]int // sequential-mode lock state (immutable map, replaced on write)
 	clockLast   *Term
+	clockLo     *Term // harness-imposed window for time.Now (verifClockRange)
+	clockHi     *Term
 	clockFrozen bool
 	choiceSeq   int
 	hseq        int // number of harness tape entries consumed
@@ -52,7 +55,8 @@ type pendingGo struct {
 
 func (st *State) clone() *State {
 	n := &State{root: st.root, cur: st.cur, steps: st.steps, depthID: st.depthID + 1, clockN: st.clockN,
-		locks: st.locks, clockLast: st.clockLast, clockFrozen: st.clockFrozen, choiceSeq: st.choiceSeq, hseq: st.hseq, conc: st.conc}
+		locks: st.locks, clockLast: st.clockLast, clockLo: st.clockLo, clockHi: st.clockHi, clockFrozen: st.clockFrozen, choiceSeq: st.choiceSeq, hseq: st.hseq, conc: st.conc}
+	n.base = st.base
 	n.heap = make(map[int]*Object, len(st.heap)+8)
 	for k, v := range st.heap {
 		n.heap[k] = v
@@ -90,6 +94,9 @@ func (st *State) addPC(c *Term) {
 func (st *State) obj(id int) *Object {
 	o := st.heap[id]
 	if o == nil {
+		o = st.base[id]
+	}
+	if o == nil {
 		o = st.root[id]
 		if o == nil {
 			panic(engineErr("dangling object %d", id))
@@ -102,13 +109,51 @@ func (st *State) obj(id int) *Object {
 func (st *State) mut(id int) *Object {
 	o := st.obj(id).clone()
 	st.heap[id] = o
+	st.compact()
 	return o
+}
+
+// local returns the state's own version of an object (nil if only the frozen root version exists).
+func (st *State) local(id int) *Object {
+	if o := st.heap[id]; o != nil {
+		return o
+	}
+	return st.base[id]
+}
+
+// compact folds the delta into a fresh base map once it has grown (keeps forks and loop snapshots cheap).
+func (st *State) compact() {
+	if len(st.heap) < 96 {
+		return
+	}
+	nb := make(map[int]*Object, len(st.base)+len(st.heap))
+	for k, v := range st.base {
+		nb[k] = v
+	}
+	for k, v := range st.heap {
+		nb[k] = v
+	}
+	st.base = nb
+	st.heap = make(map[int]*Object, 32)
+}
+
+// eachLocal visits every local object (delta over base).
+func (st *State) eachLocal(f func(id int, o *Object)) {
+	for k, v := range st.heap {
+		f(k, v)
+	}
+	for k, v := range st.base {
+		if _, ok := st.heap[k]; !ok {
+			f(k, v)
+		}
+	}
 }
 
 func (st *State) newObj(e *Engine, kind int, site string) *Object {
 	e.nextObj++
 	o := &Object{id: e.nextObj, kind: kind, site: site, thr: st.cur}
 	st.heap[o.id] = o
+	st.compact()
 	return o
 }
 
